@@ -500,7 +500,7 @@ func r07_5(r *Report, p *Program) {
 	r.Check(rule, FK(f)+"[overlay]", p.Pos(f.Pos()), ok, "latest's desired children, overlaid per old revision and recorded name with that revision's desired child", why)
 	// the result's Children are the aggregated map
 	okC := false
-	for _, b := range f.Blocks {
+	for _, b := range engine.BlocksInl(f) {
 		for _, in := range b.Instrs {
 			if st, isS := in.(*ssa.Store); isS && strings.HasSuffix(E(st.Addr), "CompositeHookResponse>.Children") {
 				okC = strings.HasPrefix(E(st.Val), "call(controller/common/api/v1.RelativeObjectMap.List)(") && strings.Contains(E(st.Val), ".desiredChildMap")
@@ -592,7 +592,7 @@ func r07_6b(r *Report, p *Program) {
 					return true
 				}
 				// the list copy into which the condition was stored element-wise
-				for _, b2 := range f.Blocks {
+				for _, b2 := range engine.BlocksInl(f) {
 					for _, in2 := range b2.Instrs {
 						if st, isS := in2.(*ssa.Store); isS {
 							if ia, isIA := st.Addr.(*ssa.IndexAddr); isIA && engine.PointsInto(val, engine.Unwrap(ia.X)) || isIA && engine.PointsInto(ia.X, engine.Unwrap(val)) {
@@ -608,7 +608,7 @@ func r07_6b(r *Report, p *Program) {
 		r.Check(rule, FK(f)+"[stored-on-every-success]", p.Pos(f.Pos()), w == nil, "every successful path stores the condition into status.conditions", "SetCondition can return success without the condition being stored in the status (e.g. a conditions list that lacks this type, or an in-place edit of a copy); "+pathWhy(w))
 		// upsert: an existing entry of the same type is replaced, not duplicated
 		okU := false
-		for _, b := range f.Blocks {
+		for _, b := range engine.BlocksInl(f) {
 			for _, in := range b.Instrs {
 				if st, isS := in.(*ssa.Store); isS {
 					if _, isIA := st.Addr.(*ssa.IndexAddr); isIA && engine.DependsOnCall(st.Val, engine.HasSuffix("object.StatusCondition.Object"), nil) != nil {
